@@ -1,0 +1,13 @@
+//go:build !verif
+
+package tls
+
+func verifOutgoing(c *Conn, data []byte) []byte                              { return data }
+func verifSuite13(hs *serverHandshakeStateTLS13)                             {}
+func verifGroup13(hs *serverHandshakeStateTLS13, g CurveID) CurveID          { return g }
+func verifALPN(c *Conn, p string) string                                     { return p }
+func verifHRR(hs *serverHandshakeStateTLS13, hrr *serverHelloMsg)            {}
+func verifServerVersions(c *Conn, ch *clientHelloMsg, v []uint16) []uint16   { return v }
+func verifCanary(hs *serverHandshakeState)                                   {}
+func verifPreClientFlight(hs *serverHandshakeStateTLS13) error               { return nil }
+func verifEmit(c *Conn, ev string, data []byte)                              {}
